@@ -52,10 +52,8 @@
 //!    `From<&Uint> for Int / der::Uint / Any` (timeouts; function `der_types` kept, unregistered).
 //!  * num-bigint: `BigUint::from(&x)` 108 s / 5.1 GB at 8 bits (too close to the cap; `bigint_to` kept, unregistered),
 //!    `TryFrom<&BigUint>` 11 GB at 8 bits even for `BigUint::from(u64)` (`bigint_from`, unregistered).
-//!  * serde human-readable: only a BOUNDED stand-in (`c16_serde_human_*`: eight concrete value/width pairs through a recording
-//!    human-readable Serializer - the exact text handed to `serialize_str` ("0x0" for zero at any width, minimal 0x-prefixed
-//!    lower-case hex otherwise, full-width form for `Bits`) and its `visit_str` round trip; 4-45 s each, 2^64 at 65 bits 226 s);
-//!    postgres `to_sql` / `from_sql` (not attempted: `Type` holds an Arc, BytesMut output), ark-ff (feature not enabled in `codecs`).
+//!  * serde human-readable (String formatting / parsing), postgres `to_sql` / `from_sql` (not attempted for lack of
+//!    time: `Type` holds an Arc, BytesMut output), ark-ff (feature not enabled in `codecs`).
 //!  * SCALE compact decoding of the big mode with a byte count other than 4, 8, 16 (see c17).
 use crate::oracle as o;
 use crate::sym::*;
@@ -788,6 +786,26 @@ fn serde_human_bits<const B: usize, const L: usize>(v: u128, want: &str) {
     }
 }
 
+// ---------------------------------------------------------------- postgres (bounded: concrete values)
+/// postgres binary NUMERIC on ONE CONCRETE value: `to_sql` produces exactly `want` (ndigits, weight, sign, dscale, base-10000
+/// digits with trailing zero digits removed - PostgreSQL's own numeric_send layout) and `from_sql` of those bytes returns the value.
+fn pg_numeric<const B: usize, const L: usize>(v: u64, want: &[u8]) {
+    use postgres_types::{FromSql, ToSql, Type};
+    let mut limbs = [0u64; L];
+    if L > 0 { limbs[0] = v; }
+    let x = Uint::<B, L>::from_limbs(limbs);
+    let mut out = bytes::BytesMut::new();
+    let r = x.to_sql(&Type::NUMERIC, &mut out);
+    assert!(r.is_ok(), "postgres NUMERIC: to_sql succeeds");
+    assert!(out.len() == want.len(), "postgres NUMERIC: number of bytes (8-byte header + 2 per significant base-10000 digit)");
+    let mut i = 0;
+    while i < want.len() { assert!(out[i] == want[i], "postgres NUMERIC: header (ndigits, weight, sign, dscale) and digits"); i += 1; }
+    match Uint::<B, L>::from_sql(&Type::NUMERIC, &out[..]) {
+        Ok(y) => assert!(ueq(x, y), "postgres NUMERIC: round trip"),
+        Err(_) => assert!(false, "postgres NUMERIC: round trip decodes"),
+    }
+}
+
 // ---------------------------------------------------------------- bytemuck
 fn bytemuck_body<const B: usize, const L: usize>() where Uint<B, L>: bytemuck::Pod {
     let x = uint::<B, L>();
@@ -974,6 +992,10 @@ crate::harnesses! {
     #[cfg_attr(kani, kani::unwind(42))] fn c16_serde_human_2p64_w65() { serde_human::<65, 2>(1u128 << 64, "0x10000000000000000") }
     #[cfg_attr(kani, kani::unwind(42))] fn c16_serde_human_bits_w16() { serde_human_bits::<16, 1>(0xab, "0x00ab") }
     #[cfg_attr(kani, kani::unwind(42))] fn c16_serde_human_bits_w9() { serde_human_bits::<9, 1>(0x1, "0x0001") }
+    #[cfg_attr(kani, kani::unwind(16))] fn c16_pg_numeric_1_w64() { pg_numeric::<64, 1>(1, &[0, 1, 0, 0, 0, 0, 0, 0, 0, 1]) }
+    #[cfg_attr(kani, kani::unwind(16))] fn c16_pg_numeric_10000_w64() { pg_numeric::<64, 1>(10000, &[0, 1, 0, 1, 0, 0, 0, 0, 0, 1]) }
+    #[cfg_attr(kani, kani::unwind(16))] fn c16_pg_numeric_12345678_w65() { pg_numeric::<65, 2>(12345678, &[0, 2, 0, 1, 0, 0, 0, 0, 0x04, 0xd2, 0x16, 0x2e]) }
+    #[cfg_attr(kani, kani::unwind(16))] fn c16_pg_numeric_1e8_w64() { pg_numeric::<64, 1>(100_000_000, &[0, 1, 0, 2, 0, 0, 0, 0, 0, 1]) }
     #[cfg_attr(kani, kani::unwind(12))] fn c16_bytemuck_w64() { bytemuck_body::<64, 1>() }
     #[cfg_attr(kani, kani::unwind(20))] fn c16_bytemuck_w128() { bytemuck_body::<128, 2>() }
     #[cfg_attr(kani, kani::unwind(4))] fn c16_bytemuck_zeroed_w7() { bytemuck_zeroed::<7, 1>() }
